@@ -300,6 +300,7 @@ func runC08(t *testing.T, sc scenario, ch *sched.Chooser) (res sched.Result) {
 		e.ClockOn = func() bool { return elapsed() < horizon }
 		// regularity bookkeeping
 		slow := map[string]bool{}
+		startedAt := map[string]time.Time{} // when each lifecycler was actually started (the schedule may delay it)
 		stopAsked := map[string]bool{}
 		var viol, key string
 		fail := func(k, f string, a ...any) {
@@ -339,8 +340,12 @@ func runC08(t *testing.T, sc scenario, ch *sched.Chooser) (res sched.Result) {
 					extra = in.spec.observe % hb
 				}
 				last := time.Unix(ent.Timestamp, 0)
-				if last.Before(t0) {
-					last = t0 // an entry inherited from an earlier incarnation: this process is obliged from its start on
+				st0, started := startedAt[id]
+				if !started {
+					continue
+				}
+				if last.Before(st0) {
+					last = st0 // an entry inherited from an earlier incarnation: this process is obliged from its own start on
 				}
 				if age := time.Since(last); age > hb+time.Second+extra {
 					fail("heartbeat-late", "at +%v the entry of %s carries a heartbeat %v old although the store accepted every write at once (period %v)", elapsed(), id, age, hb)
@@ -351,6 +356,7 @@ func runC08(t *testing.T, sc scenario, ch *sched.Chooser) (res sched.Result) {
 		for _, sp := range sc.lcs {
 			in := insts[sp.id]
 			e.Go("s-start:"+sp.id, func() {
+				startedAt[sp.id] = time.Now()
 				if err := in.svc.StartAsync(context.Background()); err != nil {
 					sched.Obs("start-error " + sp.id + " " + err.Error())
 				}
